@@ -36,6 +36,17 @@ Theorem C05_all_errors_kept : forall (c : cfg) (input : input) (sched : list tid
 Proof. exact C05_all_errors_kept_lemma. Qed.
 Print Assumptions C05_all_errors_kept.
 
+(* The per-goroutine automata used for local-trace conformance (accepts_local, evaluated on every logged
+   goroutine trace of every run) are abstractions of step: the labels that goroutine r logs along ANY run of
+   the LTS form a word of r's automaton. *)
+Theorem C05_local_traces : forall (c : cfg) (r : role) (input : input) (sched : list tid) (s : state),
+  c_abc c = true ->
+  (r = R_RD \/ r = R_RC \/ (r = R_CW /\ c_kind c = KDoc) \/ (r = R_MW /\ c_kind c = KMatrix)) ->
+  run c (init c input) sched = Some s ->
+  accepts_local r (ltrace c r (init c input) sched) = true.
+Proof. exact local_traces_accepted. Qed.
+Print Assumptions C05_local_traces.
+
 (* What repair 360cf42 fixed: with the OLD order (close the channel, then Add) there is an input
    and a schedule after which the consumer has seen the end and no error is registered -- for the
    chunk iterator and for the matrix/series iterator. *)
